@@ -12,7 +12,7 @@ from ..cfg import CFG, forward
 from ..kinds import tv
 from ..model import AnalysisError, unparse
 from ..report import RuleResult
-from ..roles import bound_from, calls
+from ..roles import bound_from, calls, const_values
 from ._c19_lib import (
     CATCHES,  # noqa: F401  (re-exported)
     Alias,
@@ -328,6 +328,51 @@ def _load_path(ctx):
     return seen, receivers, CONSTRUCTORS
 
 
+def _persisting_setters(ctx) -> dict:
+    """property name -> ['Class.name', ...] of the properties (of the package's classes) whose setter writes to the file:
+    a persisting call in its (normalised) body, or a store through another such property of the same object"""
+    if "c19.setters" in ctx.cache:
+        return ctx.cache["c19.setters"]
+    p = ctx.p
+    props = []
+    for mod in p.modules.values():
+        if not mod.in_scope:
+            continue
+        for ci in mod.classes.values():
+            for name, pr in ci.props.items():
+                if pr.setter is not None and pr.setter.cls is ci:
+                    props.append((ci, name, ctx.view(pr.setter)))
+    out: dict = {}
+
+    def direct(fn):
+        for c in ast.walk(fn.node):
+            if isinstance(c, ast.Call):
+                nm = _func_name(c)
+                if nm in PERSISTING and isinstance(c.func, ast.Attribute):
+                    return True
+                if nm == "_io_call" and c.args and unparse(c.args[0]).startswith("H5Writer"):
+                    return True
+        return False
+
+    for ci, name, fn in props:
+        if direct(fn):
+            out.setdefault(name, []).append(f"{ci.name}.{name}")
+    for _round in range(2):  # `self.q = v` inside a setter, q persisting in the same class hierarchy
+        for ci, name, fn in props:
+            if f"{ci.name}.{name}" in out.get(name, []):
+                continue
+            sn = fn.self_name or "self"
+            for st in ast.walk(fn.node):
+                if isinstance(st, ast.Assign):
+                    for t in st.targets:
+                        if isinstance(t, ast.Attribute) and isinstance(t.value, ast.Name) and t.value.id == sn and t.attr != name:
+                            m = ci.lookup(t.attr)
+                            if m and m[1] == "prop" and f"{m[0].name}.{t.attr}" in out.get(t.attr, []):
+                                out.setdefault(name, []).append(f"{ci.name}.{name}")
+    ctx.cache["c19.setters"] = out
+    return out
+
+
 def rule_load(ctx, rule_id="C19.LOAD", prop="C19") -> RuleResult:
     res = RuleResult(
         rule_id,
@@ -366,6 +411,101 @@ def rule_load(ctx, rule_id="C19.LOAD", prop="C19") -> RuleResult:
             res.find("Workspace", nm, f"persisting call on the load path: {what}", f"{fn.module.relpath}:{c.lineno}",
                      f"{what} runs while a file is being opened: opening in read-only mode (or a read-only fallback) fails or the file is "
                      "modified by merely opening it")
+    # stores through a property whose SETTER persists are persisting calls as well (`child.parent = entity` saves the child)
+    setters = _persisting_setters(ctx)
+    with_setter = {name for mod in p.modules.values() if mod.in_scope for ci in mod.classes.values() for name, pr in ci.props.items() if pr.setter is not None}
+    for nm, fn in sorted(seen.items()):
+        recv = receivers(fn)
+        tab = p.cls("Workspace").class_assigns
+        for st in ast.walk(fn.node):
+            names, at = [], st
+            if isinstance(st, (ast.Assign, ast.AugAssign, ast.AnnAssign)) and getattr(st, "value", None) is not None:
+                tgs = st.targets if isinstance(st, ast.Assign) else [st.target]
+                names = [t.attr for t in tgs for t in ([t] if not isinstance(t, (ast.Tuple, ast.List)) else t.elts) if isinstance(t, ast.Attribute)]
+            elif isinstance(st, ast.Call) and isinstance(st.func, ast.Name) and st.func.id == "setattr" and len(st.args) == 3:
+                k = st.args[1]
+                try:
+                    cv = const_values(k, fn.node)
+                except Exception:  # pragma: no cover
+                    cv = None
+                if cv:
+                    names = [v for v in cv if isinstance(v, str)]
+                elif isinstance(k, ast.Subscript) and isinstance(k.value, ast.Attribute) and isinstance(k.value.value, ast.Name) and k.value.value.id in recv \
+                        and k.value.attr in tab and isinstance(tab[k.value.attr][0], ast.Dict):
+                    # `setattr(self, self.<table>[key], value)`: every name the table can yield
+                    names = [v.value for v in tab[k.value.attr][0].values if isinstance(v, ast.Constant) and isinstance(v.value, str)]
+                elif not (isinstance(st.args[0], ast.Name) and st.args[0].id in recv):
+                    names = sorted(setters)  # a computed name on another object: any setter may be meant
+            hit = sorted({o for n_ in names for o in setters.get(n_, [])})
+            names = [n_ for n_ in names if n_ in with_setter]  # an obligation only where some property has a setter of that name
+            if names:
+                res.inst(f"Workspace.{nm}:{at.lineno} store to .{'/.'.join(sorted(set(names)))}: no setter that persists", nontrivial=True, ok=not hit)
+            if hit:
+                res.find("Workspace", nm, f"store through a setter that persists on the load path: .{hit[0].split('.')[-1]}", f"{fn.module.relpath}:{at.lineno}",
+                         f"the setter {hit[0]} writes to the file (it saves / updates / unlinks): assigning through it while a file is being opened makes "
+                         "opening need write access — a file that merely lacks its Root link no longer opens read-only, and opening it writable modifies it")
+    # the factories of the workspace run on the load path (load_entity -> create_entity -> ...): a type they obtain for the
+    # entity under construction is not flagged on_file BEFORE the constructor has run — the constructors complete missing type
+    # attributes through setters that write as soon as the type counts as stored
+    W = p.cls("Workspace")
+    facts_seen, work = {}, [W.methods[n] for n in CONSTRUCTORS if n in W.methods]
+    while work:
+        f0 = work.pop()
+        if f0.name in facts_seen:
+            continue
+        fn = ctx.view(f0)
+        facts_seen[fn.name] = fn
+        for c in ast.walk(fn.node):
+            if isinstance(c, ast.Attribute) and isinstance(c.value, ast.Name) and c.value.id == (fn.self_name or "self") and c.attr in CONSTRUCTORS and c.attr in W.methods:
+                work.append(W.methods[c.attr])
+    for nm, fn in sorted(facts_seen.items()):
+        types_ = set(bound_from(fn.node, lambda e: isinstance(e, ast.Call) and (_func_name(e) or "").startswith("find_or_create")))
+        if not types_:
+            continue
+        al = Alias(fn.node)
+        g = CFG(fn.node)
+
+        def flags(n, types_=types_, al=al):
+            """names of types this node flags as stored: `t.on_file = <anything but False>` / setattr(t, 'on_file', ..)"""
+            out = set()
+            for e in node_exprs(n):
+                for st in ast.walk(e):
+                    if isinstance(st, ast.Assign) and not (isinstance(st.value, ast.Constant) and st.value.value in (False, None, 0)):
+                        for t in st.targets:
+                            if isinstance(t, ast.Attribute) and t.attr in ("on_file", "_on_file"):
+                                r = al.x(t.value)
+                                out |= {x for x in types_ if (isinstance(t.value, ast.Name) and t.value.id == x) or (isinstance(r, ast.Name) and r.id == x)}
+                    elif isinstance(st, ast.Call) and isinstance(st.func, ast.Name) and st.func.id == "setattr" and len(st.args) == 3 \
+                            and isinstance(st.args[1], ast.Constant) and st.args[1].value in ("on_file", "_on_file") and isinstance(st.args[0], ast.Name) and st.args[0].id in types_:
+                        out.add(st.args[0].id)
+            return out
+
+        def constructs(n, t):
+            """the node builds an entity from type t: t is handed (positionally) to a call that is not a lookup of the type"""
+            return any(isinstance(c, ast.Call) and not (_func_name(c) or "").startswith("find_or_create") and _func_name(c) not in ("isinstance", "getattr", "hasattr", "bool")
+                       and any(isinstance(a, ast.Name) and a.id == t for a in c.args) for e in node_exprs(n) for c in ast.walk(e))
+
+        for t in sorted(types_):
+            builders = [n for n in g.nodes if constructs(n, t)]
+            if not builders:
+                continue
+            early = []
+            for n in g.nodes:
+                if t in flags(n):
+                    seen_n, work_n = set(), [m for m, lab in n.succ if lab not in ("exc", "raise")]
+                    while work_n:
+                        m = work_n.pop()
+                        if m in seen_n:
+                            continue
+                        seen_n.add(m)
+                        work_n.extend(x for x, lab in m.succ if lab not in ("exc", "raise"))
+                    if any(b in seen_n for b in builders):
+                        early.append(n)
+            res.inst(f"Workspace.{nm}: the type obtained for the entity under construction is not flagged on_file before the constructor runs", nontrivial=True, ok=not early)
+            for n in early[:1]:
+                res.find("Workspace", nm, "the type is flagged on_file before the entity is constructed", f"{fn.module.relpath}:{n.lineno}",
+                         "the constructors complete missing type attributes (name, description) through setters that write when the type counts as stored: "
+                         "flagged early, a file whose type lacks an optional attribute is written to while it is opened (and does not open read-only)")
     # constructors run on the load path too: the entity is not on file yet, but its (shared) TYPE is as soon as a first
     # instance has been loaded — an unconditional assignment to a type attribute writes for every further instance
     ent = p.cls("Entity")
@@ -788,4 +928,124 @@ def rule_fallback(ctx) -> RuleResult:
     return res
 
 
-RULES = [rule_guard, rule_scope, rule_load, rule_rebuild, rule_default, rule_element, rule_fallback]
+def _setattr_on(c, sn) -> bool:
+    return isinstance(c, ast.Call) and isinstance(c.func, ast.Name) and c.func.id == "setattr" and len(c.args) == 3 and isinstance(c.args[0], ast.Name) and c.args[0].id == sn
+
+
+def _setattr_names(c, fn_node, al) -> set:
+    """the field names a `setattr(obj, <name>, v)` can store to: the constants the name evaluates to, else the (alias-expanded)
+    text of the name expression as a symbolic field"""
+    try:
+        cv = const_values(c.args[1], fn_node)
+    except Exception:  # pragma: no cover
+        cv = None
+    if cv:
+        return {v for v in cv if isinstance(v, str)}
+    return {"<" + al.text(c.args[1]) + ">"}
+
+
+def rule_invent(ctx) -> RuleResult:
+    res = RuleResult(
+        "C19.INVENT",
+        "C19",
+        "a lazy getter of an entity that loads its backing field from the file (`self.<field> = self.workspace.fetch_*(...)`, which "
+        "the library does only when the entity is on file) does not go on, on the same call with the entity on file, to put a "
+        "COMPUTED value into that field behind the file's back — a direct store to the field, or a method of the object that stores "
+        "it; content that is stored nowhere stays None (a value regenerated through the property's own persisting setter, i.e. "
+        "written back, is outside this clause): dependants sized by the stored content stay readable",
+        floor=5,
+    )
+    p = ctx.p
+    setters = _persisting_setters(ctx)
+    stores_memo: dict = {}
+
+    def direct_stores(m) -> set:
+        """fields of self a method stores directly (in its normalised body)"""
+        if id(m.node) not in stores_memo:
+            v = ctx.view(m)
+            sn = v.self_name or "self"
+            stores_memo[id(m.node)] = {t.attr for st in ast.walk(v.node) if isinstance(st, (ast.Assign, ast.AugAssign, ast.AnnAssign))
+                                       for t in (st.targets if isinstance(st, ast.Assign) else [st.target])
+                                       if isinstance(t, ast.Attribute) and isinstance(t.value, ast.Name) and t.value.id == sn}
+        return stores_memo[id(m.node)]
+
+    done = set()
+    for K in p.subclasses(p.cls("Entity")):
+        if K.synthetic:
+            continue
+        for name, pr in K.props.items():
+            g0 = pr.getter
+            if g0 is None or g0.cls is not K or id(g0.node) in done:
+                continue
+            done.add(id(g0.node))
+            fn = ctx.view(g0)
+            sn = fn.self_name or "self"
+            al = Alias(fn.node)
+
+            def is_fetch(e, sn=sn, al=al):
+                return any(isinstance(c, ast.Call) and (_func_name(c) or "").startswith("fetch_") and isinstance(c.func, ast.Attribute)
+                           and al.text(c.func.value) in (f"{sn}.workspace", f"{sn}._workspace") for c in ast.walk(e))
+
+            g = CFG(fn.node)
+            loads = {}  # cfg node -> fields it fills from the file
+            for n in g.nodes:
+                if n.kind == "stmt" and isinstance(n.ast, (ast.Assign, ast.AnnAssign)) and getattr(n.ast, "value", None) is not None:
+                    tgs = n.ast.targets if isinstance(n.ast, ast.Assign) else [n.ast.target]
+                    fl = {t.attr for t in tgs if isinstance(t, ast.Attribute) and isinstance(t.value, ast.Name) and t.value.id == sn}
+                    if fl and is_fetch(al.x(n.ast.value)):
+                        loads[n] = fl
+                elif n.kind == "stmt" and isinstance(n.ast, ast.Expr) and _setattr_on(n.ast.value, sn) and is_fetch(al.x(n.ast.value.args[2])):
+                    loads[n] = _setattr_names(n.ast.value, fn.node, al)  # `setattr(self, <computed field name>, <fetch>)`
+            if not loads:
+                continue
+            fields = set().union(*loads.values())
+            facts = {f"truthy:{sn}.on_file": True}
+            bad = []
+            for start in loads:
+                seen_n, work = set(), [m for m, lab in start.succ if lab not in ("exc", "raise")]
+                while work:
+                    n = work.pop()
+                    if n in seen_n:
+                        continue
+                    seen_n.add(n)
+                    succ = [(m, lab) for m, lab in n.succ if lab not in ("exc", "raise")]
+                    if n.kind == "test" and n.ast is not None:
+                        val = tv(al.x(n.ast), sn, facts)
+                        if val is True:
+                            succ = [(m, lab) for m, lab in succ if lab != "false"]
+                        elif val is False:
+                            succ = [(m, lab) for m, lab in succ if lab != "true"]
+                    work.extend(m for m, _ in succ)
+                for n in seen_n:
+                    if n in loads or n.kind != "stmt" or n.ast is None:
+                        continue
+                    st = n.ast
+                    if isinstance(st, (ast.Assign, ast.AugAssign, ast.AnnAssign)) and getattr(st, "value", None) is not None:
+                        tgs = st.targets if isinstance(st, ast.Assign) else [st.target]
+                        for t in tgs:
+                            if isinstance(t, ast.Attribute) and isinstance(t.value, ast.Name) and t.value.id == sn and not is_fetch(al.x(st.value)) \
+                                    and not (isinstance(st.value, ast.Constant) and st.value.value is None):
+                                if t.attr in fields:
+                                    bad.append((n, f"{sn}.{t.attr} = <computed>"))
+                                else:
+                                    m = K.lookup(t.attr)
+                                    if m and m[1] == "prop" and m[2].setter is not None and direct_stores(m[2].setter) & fields \
+                                            and f"{m[0].name}.{t.attr}" not in setters.get(t.attr, []):
+                                        bad.append((n, f"{sn}.{t.attr} = <computed> (setter keeps it in memory only)"))
+                    for c in ast.walk(st):
+                        if _setattr_on(c, sn) and _setattr_names(c, fn.node, al) & fields and not is_fetch(al.x(c.args[2])) \
+                                and not (isinstance(c.args[2], ast.Constant) and c.args[2].value is None):
+                            bad.append((n, "setattr(self, <field>, <computed>)"))
+                        if isinstance(c, ast.Call) and isinstance(c.func, ast.Attribute) and isinstance(c.func.value, ast.Name) and c.func.value.id == sn:
+                            m = K.lookup(c.func.attr)
+                            if m and m[1] == "method" and direct_stores(m[2]) & fields:
+                                bad.append((n, f"{sn}.{c.func.attr}() stores the field"))
+            res.inst(f"{K.name}.{name}: field(s) {sorted(fields)} loaded from the file are not replaced by a computed value on the same call", nontrivial=True, ok=not bad)
+            for n, what in sorted(bad, key=lambda b: (b[0].lineno or 0, b[1]))[:1]:
+                res.find(K.name, name, f"a computed value replaces content missing from the file: {what.replace(sn + '.', 'self.')}", f"{fn.module.relpath}:{n.lineno}",
+                         f"when the entity is on file but this content is not stored, the getter invents it ({what}) and keeps it in memory only: the object no longer "
+                         "agrees with the file, and the entities sized by the stored content (cell / vertex data of this object) can no longer be read")
+    return res
+
+
+RULES = [rule_guard, rule_scope, rule_load, rule_rebuild, rule_default, rule_element, rule_fallback, rule_invent]
